@@ -68,6 +68,10 @@ type Sched struct {
 	yield    chan *task
 	cur      *task
 	Choose   func(n int, labels []string) int
+	// ChooseT, when set, is used instead of Choose; returning -1 abandons the run (used by the
+	// partial-order-reducing explorer when every enabled transition is asleep).
+	ChooseT   func(ts []TInfo) int
+	Abandoned bool
 	Trace    []string
 	Problems []string
 	Steps    int
@@ -128,6 +132,13 @@ type transition struct {
 	label string
 	apply func()
 	wake  []*task
+	deps  []string // resources touched: tasks, channels, wait groups (two transitions with disjoint deps commute)
+}
+
+// TInfo describes an enabled transition to a chooser.
+type TInfo struct {
+	Label string
+	Deps  []string
 }
 
 func (s *Sched) problem(format string, a ...any) {
@@ -179,7 +190,7 @@ func (s *Sched) enabled() []transition {
 				ts = append(ts, transition{fmt.Sprintf("%s: send on closed %s (panic)", a.t.name, ch.name), func() {
 					s.problem("send on closed channel %s by %s", ch.name, a.t.name)
 					s.aborted = true
-				}, nil})
+				}, nil, []string{"task:" + a.t.name, "chan:" + ch.name}})
 				selReady[a.t] = true
 				continue
 			}
@@ -187,7 +198,7 @@ func (s *Sched) enabled() []transition {
 				ts = append(ts, transition{fmt.Sprintf("%s: send %v -> %s (buffer)", a.t.name, a.val, ch.name), func() {
 					ch.buf = append(ch.buf, a.val)
 					complete(a, nil, true)
-				}, []*task{a.t}})
+				}, []*task{a.t}, []string{"task:" + a.t.name, "chan:" + ch.name}})
 				selReady[a.t] = true
 				continue
 			}
@@ -201,7 +212,7 @@ func (s *Sched) enabled() []transition {
 					ts = append(ts, transition{fmt.Sprintf("%s -> %s: %v over %s", a.t.name, r.t.name, a.val, ch.name), func() {
 						complete(a, nil, true)
 						complete(r, a.val, true)
-					}, []*task{a.t, r.t}})
+					}, []*task{a.t, r.t}, []string{"task:" + a.t.name, "task:" + r.t.name, "chan:" + ch.name}})
 					selReady[a.t] = true
 					selReady[r.t] = true
 				}
@@ -212,12 +223,12 @@ func (s *Sched) enabled() []transition {
 					v := ch.buf[0]
 					ch.buf = ch.buf[1:]
 					complete(a, v, true)
-				}, []*task{a.t}})
+				}, []*task{a.t}, []string{"task:" + a.t.name, "chan:" + ch.name}})
 				selReady[a.t] = true
 			} else if ch.closed {
 				ts = append(ts, transition{fmt.Sprintf("%s: recv from closed %s", a.t.name, ch.name), func() {
 					complete(a, nil, false)
-				}, []*task{a.t}})
+				}, []*task{a.t}, []string{"task:" + a.t.name, "chan:" + ch.name}})
 				selReady[a.t] = true
 			}
 		}
@@ -227,7 +238,13 @@ func (s *Sched) enabled() []transition {
 		switch t.op.kind {
 		case opSelect:
 			if t.op.def && !selReady[t] {
-				ts = append(ts, transition{t.name + ": select default", func() { t.op.ridx = -1 }, []*task{t}})
+				deps := []string{"task:" + t.name}
+				for _, sc := range t.op.cases {
+					if sc.ch != nil {
+						deps = append(deps, "chan:"+sc.ch.name)
+					}
+				}
+				ts = append(ts, transition{t.name + ": select default", func() { t.op.ridx = -1 }, []*task{t}, deps})
 			}
 		case opClose:
 			ch := t.op.ch
@@ -243,7 +260,7 @@ func (s *Sched) enabled() []transition {
 					return
 				}
 				ch.closed = true
-			}, []*task{t}})
+			}, []*task{t}, []string{"task:" + t.name, "chan:" + chName(ch)}})
 		case opWgAdd:
 			wg, d := t.op.wg, t.op.delta
 			ts = append(ts, transition{fmt.Sprintf("%s: wg.Add(%d)", t.name, d), func() {
@@ -255,14 +272,27 @@ func (s *Sched) enabled() []transition {
 				if d > 0 && wg.waiting > 0 && wg.n == d {
 					s.problem("WaitGroup.Add(%d) by %s concurrent with Wait at counter zero (misuse: Add must happen before Wait)", d, t.name)
 				}
-			}, []*task{t}})
+			}, []*task{t}, []string{"task:" + t.name, fmt.Sprintf("wg:%p", wg)}})
 		case opWgWait:
 			if t.op.wg.n == 0 {
 				wg := t.op.wg
-				ts = append(ts, transition{t.name + ": wg.Wait returns", func() { wg.waiting-- }, []*task{t}})
+				ts = append(ts, transition{t.name + ": wg.Wait returns", func() { wg.waiting-- }, []*task{t}, []string{"task:" + t.name, fmt.Sprintf("wg:%p", wg)}})
 			}
 		case opYield:
-			ts = append(ts, transition{t.name + ": continue", func() {}, []*task{t}})
+			ts = append(ts, transition{t.name + ": continue", func() {}, []*task{t}, []string{"task:" + t.name}})
+		}
+	}
+	// a transition that completes a select also disables the select's other alternatives: it depends on
+	// every channel of that select
+	for i := range ts {
+		for _, t := range ts[i].wake {
+			if t.op != nil && t.op.kind == opSelect {
+				for _, sc := range t.op.cases {
+					if sc.ch != nil {
+						ts[i].deps = append(ts[i].deps, "chan:"+sc.ch.name)
+					}
+				}
+			}
 		}
 	}
 	sort.SliceStable(ts, func(i, j int) bool { return ts[i].label < ts[j].label })
@@ -329,7 +359,18 @@ func (s *Sched) Run(main func()) {
 			labels[i] = ts[i].label
 		}
 		i := 0
-		if len(ts) > 1 {
+		if s.ChooseT != nil {
+			infos := make([]TInfo, len(ts))
+			for k := range ts {
+				infos[k] = TInfo{ts[k].label, ts[k].deps}
+			}
+			i = s.ChooseT(infos)
+			if i < 0 {
+				s.Abandoned = true
+				s.abort()
+				return
+			}
+		} else if len(ts) > 1 {
 			i = s.Choose(len(ts), labels)
 		}
 		tr := ts[i]
@@ -548,6 +589,98 @@ func (e *Explorer) Next() bool {
 			e.prefix = e.prefix[:i+1]
 			return true
 		}
+	}
+	return false
+}
+
+// PORExplorer enumerates schedules depth-first with sleep sets: of two adjacent independent transitions
+// (disjoint tasks, channels and wait groups) only one order is explored, so that every Mazurkiewicz trace
+// is still covered while commuting interleavings are not repeated.
+type PORExplorer struct {
+	stack []*porFrame
+	pos   int
+	Runs  int
+	Cut   int // runs abandoned because every enabled transition was asleep
+}
+
+type porFrame struct {
+	enabled []TInfo
+	chosen  int
+	done    map[string]bool // labels already explored from this node
+	sleep   map[string][]string
+}
+
+func independent(a, b []string) bool {
+	for _, x := range a {
+		for _, y := range b {
+			if x == y {
+				return false
+			}
+		}
+	}
+	return true
+}
+
+// Chooser returns the chooser for the next run.
+func (e *PORExplorer) Chooser() func(ts []TInfo) int {
+	e.pos = 0
+	return func(ts []TInfo) int {
+		d := e.pos
+		e.pos++
+		if d < len(e.stack) {
+			// re-execution of the known prefix (runs are deterministic given the choices)
+			return e.stack[d].chosen
+		}
+		// new node: inherit the sleep set from the parent
+		f := &porFrame{enabled: ts, chosen: -1, done: map[string]bool{}, sleep: map[string][]string{}}
+		if d > 0 {
+			par := e.stack[d-1]
+			taken := par.enabled[par.chosen]
+			for l, deps := range par.sleep {
+				if independent(deps, taken.Deps) {
+					f.sleep[l] = deps
+				}
+			}
+		}
+		e.stack = append(e.stack, f)
+		for i, t := range ts {
+			if _, asleep := f.sleep[t.Label]; !asleep {
+				f.chosen = i
+				return i
+			}
+		}
+		e.Cut++
+		return -1
+	}
+}
+
+// Next prepares the next run; false when the (reduced) tree is exhausted.
+func (e *PORExplorer) Next() bool {
+	e.Runs++
+	e.stack = e.stack[:min(len(e.stack), e.pos)]
+	for len(e.stack) > 0 {
+		f := e.stack[len(e.stack)-1]
+		if f.chosen >= 0 {
+			t := f.enabled[f.chosen]
+			f.done[t.Label] = true
+			f.sleep[t.Label] = t.Deps
+		}
+		next := -1
+		for i, t := range f.enabled {
+			if f.done[t.Label] {
+				continue
+			}
+			if _, asleep := f.sleep[t.Label]; asleep {
+				continue
+			}
+			next = i
+			break
+		}
+		if next >= 0 {
+			f.chosen = next
+			return true
+		}
+		e.stack = e.stack[:len(e.stack)-1]
 	}
 	return false
 }
